@@ -213,7 +213,7 @@ def nesting_cases():
     out.append(ns_case({"A.1.0.dsdl": "uint8 a\n" + "\n" * 3000 + "@sealed\n"}, "length:lines"))
     out.append(ns_case({"A.1.0.dsdl": "".join("uint8 f%d\n" % i for i in range(400)) + "@sealed\n"}, "length:fields"))
     out.append(ns_case({"A.1.0.dsdl": "".join("# c%d\n" % i for i in range(3000)) + "@sealed\n"}, "length:comments"))
-    # beyond the recursion limit of the PEG engine (open finding 'recursion-depth' until repaired)
+    # beyond the recursion limit of the PEG engine (F17, repaired: DSDLSyntaxError)
     for d in (43, 60, 100, 400):
         out.append(ns_case({"A.1.0.dsdl": "@print " + "(" * d + "1" + ")" * d + "\n@sealed\n"}, "probe:recursion-depth"))
     for d in (34, 100):
@@ -283,7 +283,7 @@ def name_cases(rng, n_random):
     out.append(ns_case({"A.1.0.dsdl": SEALED, "A.1.0.uavcan": "uint8 x\n@sealed\n"}, "names:duplicates"))
     out.append(ns_case({"sub/A.1.0.dsdl": SEALED, "SUB/A.1.0.dsdl": SEALED}, "names:case-variants"))
     out.append(ns_case({"sub/A.1.0.dsdl": SEALED, "sub.1.0.dsdl": SEALED}, "names:type-vs-namespace"))
-    # a directory that looks like a definition (open finding 'directory-named-as-definition' until repaired)
+    # a directory that looks like a definition (F18, repaired: ignored)
     out.append(ns_case({}, "probe:directory-named-as-definition", dirs=["X.1.0.dsdl"]))
     out.append(ns_case({"A.1.0.dsdl": SEALED}, "probe:directory-named-as-definition", dirs=["X.1.0.dsdl"]))
     out.append(ns_case({"X.1.0.dsdl/A.1.0.dsdl": SEALED}, "probe:directory-named-as-definition"))
@@ -321,7 +321,7 @@ def generate(rng, tier):
         add(c, "targeted")
     for c in name_cases(rng, 150 if tier == "quick" else 3000):
         add(c, "targeted" if c["tag"] != "names:random" else "random")
-    # not UTF-8 (outside 'all Unicode strings'; classified separately)
+    # not UTF-8 (F19, repaired: InvalidDefinitionError)
     add({"k": "ns", "ns": "ns", "files": {}, "dirs": [], "bytes": {"A.1.0.dsdl": [255, 254, 64, 115]}, "tag": "probe:invalid-utf8"}, "targeted")
     # structured
     all_env = list(range(len(E.ENV)))
@@ -428,7 +428,7 @@ def run_impl(cases):
         except BaseException as ex:  # pylint: disable=broad-except
             signal.alarm(0)
             cls = V.classify(ex) if isinstance(ex, Exception) else "COther"
-            culprit = ""
+            culprit = "" if isinstance(ex, pydsdl.Error) else type(ex).__name__
             if isinstance(ex, pydsdl.InternalError):
                 m = re.search(r"title=([A-Za-z]+)", str(ex))
                 culprit = m.group(1) if m else (type(ex.__cause__).__name__ if ex.__cause__ is not None else "")
@@ -479,19 +479,20 @@ def describe(case, obs):
     return keys
 
 
-SIGNATURES = {"probe:recursion-depth": ("recursion-depth", "RecursionError"), "probe:directory-named-as-definition": ("directory-named-as-definition", "IsADirectoryError"),
-              "probe:invalid-utf8": ("invalid-utf8", "UnicodeDecodeError")}
+# open findings this module can recognise: signature kind -> (class observed, exception that escaped)
+SIGNATURES = {"recursion-depth-fields": ("COther", "RecursionError")}
 
 
 def known_finding(case, obs, known):
-    culprit = obs.get("culprit", "") if isinstance(obs, dict) else ""
+    if not isinstance(obs, dict) or case.get("k") != "ns":
+        return None
     for k in known:
         sig = k.get("signature", {})
-        for tag, (kind, exc) in SIGNATURES.items():
-            if sig.get("kind") == kind and culprit == exc and obs.get("out") == "CInternal":
-                # the narrow signature: InternalError wrapping exactly this exception; for recursion any nesting-shaped input
-                if kind != "recursion-depth" or case.get("tag", "").startswith(("probe:recursion", "nesting", "token-mutation", "char-noise", "pure-noise")):
-                    return "%s %s" % (k.get("id", "?"), k.get("description", "")[:200])
+        want = SIGNATURES.get(sig.get("kind"))
+        if want and obs.get("out") == want[0] and obs.get("culprit") == want[1]:
+            # narrow: only definitions with at least 150 attribute lines in one file
+            if any(text.count("\n") >= 150 for text in case.get("files", {}).values()):
+                return "%s %s" % (k.get("id", "?"), k.get("description", "")[:200])
     return None
 
 
